@@ -359,6 +359,6 @@ impl Family for HostileServer {
         2 << 20
     }
     fn watchdog_ms(&self) -> u64 {
-        60_000
+        40_000
     }
 }
